@@ -527,7 +527,22 @@ func (c *Ctx) ruleLifecycleHelpers(rule string) {
 						if s, l, isR := x.rangedSlice(args[1]); isR && x.Origin(s) == ssa.Value(f.Params[1]) {
 							_, lo, hi := x.sliceInterval(s)
 							// every key: whole slice, unconditional delete, no early way out of the loop
-							ok = lo.equal(constForm(0)) && hi.equal(x.symLen(s)) && len(x.GuardsOfInLoop(call.Block())) == 0 && l.onlyNormalExit()
+							// (a delete under "the table has this key" deletes what an unconditional one does)
+							guarded := false
+							for _, g := range x.GuardsOfInLoop(call.Block()) {
+								ex, isEx := x.Origin(g.Cond).(*ssa.Extract)
+								lk, isLk := (ssa.Value)(nil), false
+								if isEx && ex.Index == 1 {
+									lk, isLk = ex.Tuple, true
+								}
+								if l2, isL := lk.(*ssa.Lookup); isLk && isL && l2.CommaOk && g.Pol {
+									if _, isB := x.isFieldLoad(l2.X, "DataContext", "base"); isB && x.sameValue(l2.Index, args[1]) {
+										continue
+									}
+								}
+								guarded = true
+							}
+							ok = lo.equal(constForm(0)) && hi.equal(x.symLen(s)) && !guarded && l.onlyNormalExit()
 						}
 					}
 				}
@@ -1017,6 +1032,11 @@ func (c *Ctx) ruleConstruction(rule string) {
 			a, b = b, a
 		}
 		okTags = a.base.equal(constForm(0)) && a.count.equal(fmin) && b.base.equal(fmin) && b.base.add(b.count, 1).equal(fmax)
+	} else if len(tags) == 1 && tags[0].ok {
+		// all wrappers made in one loop over [0, poolMaxLen), each with its iteration number
+		t := tags[0]
+		desc = fmt.Sprintf("[%s, %s + %s); ", t.base, t.base, t.count)
+		okTags = t.base.equal(constForm(0)) && t.count.equal(fmax)
 	}
 	c.Check(rule, "NewGenginePool#tags", okTags, f.Pos(), "wrapper tags must be the iteration number for the poolMinLen initial wrappers and poolMinLen + the iteration number for the poolMaxLen-poolMinLen additional ones (a bijection onto [0,max)): %s", desc)
 	// one engine per instance: the result map lives in the engine object, each wrapper gets its own
@@ -1077,6 +1097,78 @@ func (c *Ctx) ruleConstruction(rule string) {
 		}
 		madeBy[mk] = name
 	})
+	// every slot of the two lists holds a wrapper of its own: a wrapper allocated in the iteration that
+	// fills the slot, or the address of an element of a block of wrappers made here, the index ranges of
+	// the fills being disjoint -- otherwise two requests are handed the same instance
+	{
+		type fill struct {
+			base, count linform
+			pos         token.Pos
+		}
+		var fills []fill
+		perAlloc := map[*ssa.Alloc]int{}
+		okSlots, slotWhy, nSlots := true, "", 0
+		isWrapperPtr := func(t types.Type) bool {
+			p, ok := t.Underlying().(*types.Pointer)
+			return ok && structName(p) == "gengineWrapper"
+		}
+		put := func(v ssa.Value, at ssa.Instruction) {
+			nSlots++
+			switch o := x.Origin(v).(type) {
+			case *ssa.Alloc:
+				perAlloc[o]++
+				L := x.InnermostLoop(at.Block())
+				if L == nil || !L.Blocks[o.Block()] {
+					okSlots, slotWhy = false, "a wrapper made outside the iteration that fills the slot is put into a list at "+c.pos(at.Pos())
+				}
+				if perAlloc[o] > 1 {
+					okSlots, slotWhy = false, "the same wrapper is put into a list twice at "+c.pos(at.Pos())
+				}
+			case *ssa.IndexAddr:
+				if _, isMk := x.Origin(o.X).(*ssa.MakeSlice); !isMk {
+					okSlots, slotWhy = false, "a list slot is filled with an element of "+x.Describe(o.X)+" at "+c.pos(at.Pos())
+					return
+				}
+				_, base, count, okF := x.iterForm(f, o.Index)
+				if !okF {
+					okSlots, slotWhy = false, "a list slot is filled with an element whose index is not the iteration number plus a constant part at "+c.pos(at.Pos())
+					return
+				}
+				fills = append(fills, fill{base, count, at.Pos()})
+			default:
+				okSlots, slotWhy = false, "a list slot is filled with "+x.Describe(v)+" at "+c.pos(at.Pos())
+			}
+		}
+		eachInstr(f, func(in ssa.Instruction) {
+			switch t := in.(type) {
+			case *ssa.Store:
+				if ia, ok := t.Addr.(*ssa.IndexAddr); ok && isWrapperPtr(t.Val.Type()) {
+					if sl, isSl := ia.X.Type().Underlying().(*types.Slice); isSl && isWrapperPtr(sl.Elem()) {
+						put(t.Val, in)
+					}
+				}
+			case *ssa.Call:
+				if args, isApp := builtinCall(t, "append"); isApp && len(args) == 2 {
+					if sl, isSl := t.Type().Underlying().(*types.Slice); isSl && isWrapperPtr(sl.Elem()) {
+						if e := x.appendedSingle(args[1]); e != nil {
+							put(e, in)
+						} else {
+							okSlots, slotWhy = false, "several wrappers appended at once at "+c.pos(in.Pos())
+						}
+					}
+				}
+			}
+		})
+		for i := range fills {
+			for j := i + 1; j < len(fills); j++ {
+				a, b := fills[i], fills[j]
+				if !a.base.add(a.count, 1).equal(b.base) && !b.base.add(b.count, 1).equal(a.base) {
+					okSlots, slotWhy = false, fmt.Sprintf("the fills at %s and %s take elements [%s, +%s) and [%s, +%s) of the block: not shown to be disjoint", c.pos(a.pos), c.pos(b.pos), a.base, a.count, b.base, b.count)
+				}
+			}
+		}
+		c.Check(rule, "NewGenginePool#one-slot-per-wrapper", okSlots && nSlots >= 2, f.Pos(), "every slot of the free lists must hold a wrapper of its own (%d fill(s) found): %s", nSlots, orStr(slotWhy, "ok"))
+	}
 	c.Check(rule, "NewGenginePool#lists-own-their-memory", okOwn && len(madeBy) == 3, f.Pos(), "freeGengines, additionGengines and rbSlice must each be a slice of its own (%d found): %s", len(madeBy), orStr(ownWhy, "ok"))
 	c.Check(rule, "NewGenginePool#own-engine-per-instance", okEng && nEng >= 1, f.Pos(), "every wrapper must get its own engine (%d store(s) of the field found): %s", nEng, orStr(engWhy, "ok"))
 	// one data context and rule builder per instance, created inside the loop, for every
